@@ -133,7 +133,7 @@ func init() {
 		return m.i64(4)
 	})
 	register(ba+"MakeNoZero", func(m *Machine, fr *frame, fn *ssa.Function, args []Value) Value {
-		n := intArg(m, args[0], "MakeNoZero")
+		n := m.makeLen(fr, args[0], fn.Signature.Params().At(0).Type(), "MakeNoZero")
 		out := make([]Value, n)
 		z := m.F.Const(8, 0)
 		for i := range out {
